@@ -6,7 +6,7 @@
    consecutive nodes that are not connectable, and override_reassign / fit_reassign moved such a segment into a
    real tour); the witness network and history are kept at the end of this file, with the proof that the old
    constructor breaks connectivity and that the repaired model passes the same history. *)
-From RS Require Import Base BaseFacts Network NetSpec NetFacts Tour TourSpec TourStmts TourFacts TourValidFacts.
+From RS Require Import SchedPeel Base BaseFacts Network NetSpec NetFacts Tour TourSpec TourStmts TourFacts TourValidFacts.
 From RS Require Import Transition Schedule SchedInv SchedObs SchedStruct SchedCostsFacts.
 From Coq Require Import Arith.
 
@@ -329,7 +329,7 @@ Lemma update_tours_T s forms usage dids uns p ntp r ntr moved
     = Ok (vehicles1, tours2, forms2, usage2, dummies2, ids1, dids1, uns2, costs2) ->
   TI vehicles1 tours2 dummies2.
 Proof.
-  intros I T FP FR H. unfold update_tours in H.
+  intros I T FP FR H. apply update_tours_peel in H. unfold update_tours_prefix in H.
   monp H. mon H. monp H. mon H. monp H. inversion H; subst; clear H.
   assert (Q : TI vehicles1 l3 l1 /\ forall ty, vget r vehicles1 = Some ty -> vget r (s_vehicles s) = Some ty).
   { destruct ntp as [nt|].
